@@ -1,6 +1,7 @@
 package engine
 
 import (
+	"path/filepath"
 	"fmt"
 	"go/constant"
 	"go/token"
@@ -101,6 +102,7 @@ type Machine struct {
 	captureLog []captureRec // regexp captures decomposed on this path (validated on witnesses)
 	harnessPkg *ssa.Package // package of the harness being run
 	curPkg     *ssa.Package // package of the function currently executing (for vfStub_* lookups)
+	harnessFns map[*ssa.Function]bool
 
 	frontierDepth int     // >0: stop at this many decisions and record prefixes
 	Frontier      [][]int // recorded decision prefixes
@@ -813,6 +815,24 @@ func (t *Term) approxSize(limit int) int {
 	return n
 }
 
+// isHarnessFn: functions of the harness files (zz_vf_*.go): their loops walk
+// over what the code under test produced and are bounded by construction.
+func (m *Machine) isHarnessFn(fn *ssa.Function) bool {
+	if m.harnessFns == nil {
+		m.harnessFns = map[*ssa.Function]bool{}
+	}
+	if v, ok := m.harnessFns[fn]; ok {
+		return v
+	}
+	f := fn
+	for f.Parent() != nil {
+		f = f.Parent()
+	}
+	v := strings.Contains(filepath.Base(m.Prog.Fset.Position(f.Pos()).Filename), "zz_vf_")
+	m.harnessFns[fn] = v
+	return v
+}
+
 // loopCount: how often a block was entered in one activation with at least one
 // new solver decision since the previous entry (iterations of a loop whose
 // continuation depends on symbolic data).
@@ -994,7 +1014,7 @@ func (m *Machine) constValue(c *ssa.Const) Value {
 
 func (m *Machine) runBlock(fr *frame, b *ssa.BasicBlock, prev *ssa.BasicBlock) *ssa.BasicBlock {
 	// unwinding check for loops steered by symbolic data
-	if len(b.Preds) > 1 {
+	if len(b.Preds) > 1 && !m.isHarnessFn(fr.fn) {
 		if fr.visits == nil {
 			fr.visits = map[*ssa.BasicBlock]*loopCount{}
 		}
